@@ -164,6 +164,10 @@ func c18SMPP(c *fw.Case) {
 			c.Failf("smpp-field/"+rcKeys[i], "receipt %q: field %q extracted as %q, expected %q", s, rcKeys[i], got[i], want[i])
 		}
 	}
+	c.Echo("smpp34.ExtractDeliveryReceipt", func() string {
+		d, err := smpp34.ExtractDeliveryReceipt(s)
+		return fmt.Sprintf("%q %v", [8]string{d.ID, d.Sub, d.Dlvrd, d.SubDate, d.DoneDate, d.Stat, d.Err, d.Text}, err)
+	})
 	c.Cover(fmt.Sprintf("smpp/subset%02x", c.Idx%256))
 	c.Sample(2, map[string]any{"variant": "smpp", "receipt": s, "extracted": got})
 }
@@ -197,6 +201,10 @@ func c18SMGP(c *fw.Case) {
 			c.Failf("smgp-field/"+rcKeys[i]+"/"+spell, "receipt %q (hex %s): field %q extracted as %q, expected %q", s, hx([]byte(s)), rcKeys[i], got[i], want[i])
 		}
 	}
+	c.Echo("smgp30.ExtractDeliveryReceipt", func() string {
+		d, err := smgp30.ExtractDeliveryReceipt(s)
+		return fmt.Sprintf("%q %v", [8]string{d.ID, d.Sub, d.Dlvrd, d.SubDate, d.DoneDate, d.Stat, d.Err, d.Text}, err)
+	})
 	c.Cover(fmt.Sprintf("smgp/%s/subset%02x", spell, c.Idx%256))
 	c.Sample(2, map[string]any{"variant": "smgp", "receipt": s, "extracted": got})
 }
